@@ -37,7 +37,7 @@ import math, os, shutil, tempfile
 from collections import deque
 from fractions import Fraction as Fr
 from mc.core import Report, call
-from mc.canon import canon
+from mc.c06_canon import canon
 
 ID = "C06"
 TECHNIQUE = "explicit-state BFS over histories of copy/merge/transform calls on live real meshes vs exact reference tuples"
@@ -67,11 +67,14 @@ ASSUMPTIONS = [
     "after a reported violation the models are re-synchronised with the real objects and the search continues",
 ]
 BOUNDS = {
-    "quick": "65 producer configurations: all histories of <= 2 events (full menu) and <= 3 events (reduced menu); 8 producer "
-             "pairs <= 2 events (reduced menu); rotation sweep 24 rotations x 3 forms on 4 producers",
-    "thorough": "65 producer configurations: all histories of <= 3 events (full menu) and <= 4 events (mini menu); 14 "
-                "sharing-prone configurations <= 4 events (reduced menu); 8 producer pairs <= 3 events (reduced menu); "
-                "rotation sweep 24 rotations x 3 forms on 12 producers",
+    "quick": "65 producer configurations: all histories of <= 2 events (full menu; reduced menu for the 12 configurations "
+             "with >= 12 vertices or 2-3 starting meshes); 9 sharing-prone / one-per-class configurations <= 3 events "
+             "(reduced menu, mini menu for the 2 boundary configurations); 8 producer pairs <= 2 events (reduced menu); rotation sweep "
+             "(23 rotations x 3 argument forms, each followed by its inverse) on 4 producers; live set <= 3 meshes",
+    "thorough": "56 producer configurations: all histories of <= 3 events (full menu) and <= 4 events (mini menu); the 9 "
+                "configurations with >= 12 vertices or 2-3 starting meshes: <= 2 events (full menu) and <= 3 events (reduced "
+                "menu); 8 sharing-prone configurations <= 4 events (reduced menu); 8 producer pairs <= 3 events (reduced "
+                "menu); rotation sweep on 12 producers; live set <= 3 meshes",
 }
 
 MAX_LIVE = 3
@@ -194,30 +197,50 @@ MENUS = {
 }
 
 
+BIG = ("icosphere1", "spherify_vertices", "dodecahedron", "cylindrify_edges", "dual_mesh.barycenter", "dual_mesh.circumcenter",
+       "merge.mixed", "icosahedron", "icosphere0")
+
+
+TWO = ("boundary.surface", "boundary.surface.ring", "boundary.volume")      # start with two live meshes
+
+
 def tasks(tier):
     from mc.c06_producers import PRODUCERS, DEEP, PAIRS
     out = []
     names = list(PRODUCERS)
     if tier == "quick":
         for n in names:
-            out.append({"kind": "bfs", "start": [n], "menu": "reduced", "depth": 3})
-        for n in names:
-            out.append({"kind": "bfs", "start": [n], "menu": "full", "depth": 2})
+            out.append({"kind": "bfs", "start": [n], "menu": "reduced" if n in BIG or n in TWO else "full", "depth": 2})
+        for n in DEEP[:9]:
+            out.append({"kind": "bfs", "start": [n], "menu": "mini" if n in TWO else "reduced", "depth": 3})
         for a, b in PAIRS:
             out.append({"kind": "bfs", "start": [a, b], "menu": "reduced", "depth": 2})
         for n in DEEP[:4]:
             out.append({"kind": "rotsweep", "start": [n]})
     else:
-        for n in DEEP:
+        for n in names:
+            out.append({"kind": "bfs", "start": [n], "menu": "reduced" if n in BIG else "full", "depth": 3})
+        for n in names:
+            if n in BIG:
+                out.append({"kind": "bfs", "start": [n], "menu": "full", "depth": 2})
+        for n in DEEP[:8]:
             out.append({"kind": "bfs", "start": [n], "menu": "reduced", "depth": 4})
         for n in names:
-            out.append({"kind": "bfs", "start": [n], "menu": "full", "depth": 3})
-        for n in names:
-            out.append({"kind": "bfs", "start": [n], "menu": "mini", "depth": 4})
+            if n not in BIG:
+                out.append({"kind": "bfs", "start": [n], "menu": "mini", "depth": 4})
         for a, b in PAIRS:
             out.append({"kind": "bfs", "start": [a, b], "menu": "reduced", "depth": 3})
         for n in DEEP[:12]:
             out.append({"kind": "rotsweep", "start": [n]})
+    # most expensive first so that the pool stays balanced (results are merged in this fixed order)
+    cost = {"full": 10, "reduced": 4, "mini": 2}
+
+    def weight(t):
+        if t["kind"] != "bfs":
+            return 1
+        w = cost[t["menu"]] ** t["depth"] * len(t["start"]) ** 2
+        return w * (6 if any(n in BIG for n in t["start"]) else 1)
+    out.sort(key=lambda t: -weight(t))
     return out
 
 
@@ -263,7 +286,7 @@ def attr_digest(m):
         if c is None:
             continue
         for an in sorted(c._attr):
-            out.append((nm, an, canon(c._attr[an], with_alias=False, skip_attrs=("type",))))
+            out.append((nm, an, canon(c._attr[an], skip_attrs=("type",))))
     return tuple(out)
 
 
@@ -480,6 +503,15 @@ def link_toward(st, src, dst):
     return None
 
 
+def caller_family(label):
+    """producers that keep the caller's arrays, grouped by the code pattern that does it"""
+    if label.startswith("from_arrays") or label == "chain_of_vertices":
+        return "from_arrays"
+    if label in ("triangle", "quad", "tetrahedron", "hexahedron", "hexahedron_4pts", "cylinder"):
+        return "procedural(corner points)"
+    return label
+
+
 def blame_cross(st, src, dst):
     lab = link_toward(st, src, dst)
     oc = "side_effect:other_mesh_changed"
@@ -490,7 +522,7 @@ def blame_cross(st, src, dst):
     if lab == "copy":
         return "C06.copy.no_shared_state", "copy:shares_coordinate_storage_with_source", oc
     if lab.startswith("caller:"):
-        return ("C06.transform.isolation", lab[7:] + ":mesh_shares_coordinate_storage_with_caller_array",
+        return ("C06.transform.isolation", caller_family(lab[7:]) + ":mesh_shares_coordinate_storage_with_caller_array",
                 "side_effect:caller_array_changed")
     return "C06.transform.isolation", lab + ":result_shares_coordinate_storage_with_source", oc
 
@@ -684,6 +716,26 @@ class Run:
                     rep.count("exact_comparisons", len(rv))
         return mism, cnt
 
+    @staticmethod
+    def attr_sharers(st, y):
+        """live meshes (other than y) whose vertex storage overlaps an array held by an attribute of mesh y"""
+        import numpy as np
+        arrs = []
+        for nm in CONTAINERS:
+            c = getattr(st.live[y].real, nm, None)
+            if c is not None:
+                for a in c._attr.values():
+                    arrs += [t[2] for t in mutable_graph(a)[1]]
+        out = []
+        for w, L in enumerate(st.live):
+            if w == y:
+                continue
+            for v in L.real.vertices._data:
+                if isinstance(v, np.ndarray) and any(np.shares_memory(v, a) for a in arrs):
+                    out.append(w)
+                    break
+        return out
+
     def intrinsic(self, ev):
         """Causal test for a wrong vertex: the same event on a replica of the state in which the harness has given
         every vertex slot its own storage.  Mismatches that survive are wrong whatever the storage layout (the map
@@ -732,7 +784,9 @@ class Run:
                 if y in targets:
                     L.attrs = dg
                 else:
-                    lab = link_toward(st, ("m", targets[0]), ("m", y)) if targets else None
+                    cands = self.attr_sharers(st, y) + list(targets)
+                    labs = [link_toward(st, ("m", w), ("m", y)) for w in cands]
+                    lab = next((x for x in labs if x not in (None, "merge", "copy")), None) or next((x for x in labs if x), None)
                     self.viol("C06.transform.isolation" if kind in TRANSFORMS else f"C06.{kind}.isolation",
                               PRIMITIVE.get(kind, callee), "side_effect:other_mesh_attribute_changed",
                               (lab or "unrelated") + ":result_coordinates_are_views_of_an_attribute_of_the_source",
@@ -880,7 +934,7 @@ class Run:
                 rep.outcome(kind, "raises:" + o.exc)
                 _, dts = read_vertices(X.real)
                 icls = ("vertex_dtype=" + "+".join(sorted(dts))) if not dts <= {"float64", "float32"} else "producer=" + X.label
-                self.viol(f"C06.{kind}.answers", CALLEE[kind], "raises:" + o.exc, icls,
+                self.viol("C06.transform.answers", PRIMITIVE[kind], "raises:" + o.exc, icls,
                           {"event": list(ev), "mesh_producer": X.label, "msg": o.msg})
             return True
         if any(p is None for p in X.V):
@@ -940,11 +994,12 @@ class Run:
         outs = []
         if hasattr(m, "connectivity"):
             outs.append(call(lambda: m.connectivity.vertex_to_vertices(0)).ok)
-        if hasattr(m, "boundary_vertices"):
+        if isinstance(getattr(type(m), "boundary_vertices", None), property):
             outs.append(call(lambda: list(m.boundary_vertices)).ok)
             if hasattr(m, "is_triangular"):
                 outs.append(call(m.is_triangular).ok)
         if not check:
+            X.attrs = attr_digest(m)
             return False
         self.rep.flag("event:touch")
         self.rep.outcome("touch", str(outs))
